@@ -66,7 +66,10 @@ func vFunctionNames() []string {
 
 // vEdit performs one symbolic edit of the tree.
 func vEdit() {
-	kinds := []string{"nothing", "env"}
+	kinds := []string{"nothing"}
+	if !vKeepProject {
+		kinds = append(kinds, "env") // code and referenced values change only with a reload
+	}
 	if len(vPlain) > 0 {
 		kinds = append(kinds, "content")
 	}
@@ -268,8 +271,8 @@ func vCheckC01(tn string) {
 // not fail, that are not forced, and whose dependencies have not executed since.
 func vC02Expect(opts *RunOptions) map[string]bool {
 	quiet := map[string]bool{}
-	if vAfterCrash || (opts != nil && (opts.Always || opts.DryRun)) {
-		return quiet
+	if vAfterCrash || vKeepProject || (opts != nil && (opts.Always || opts.DryRun)) {
+		return quiet // C02 speaks about freshly loaded projects only
 	}
 	for i := range vShape {
 		s := &vShape[i]
@@ -439,8 +442,11 @@ func vEvaluatingSet() map[string]bool {
 
 // ---------------------------------------------------------------- harness entry points
 
+var vPlans = []string{"", "EB", "EBB", "BEB", "EEB", "EBE"}
+
 func vSetup() {
 	vInit(vParam("shape"))
+	vKeepProject = vParam("reload") == 0
 	vAllowFail = vParam("fail") == 1
 	vAllowAlways = vParam("always") == 1
 }
@@ -460,22 +466,39 @@ func VHarnessHistory() {
 		// rebuilding the unchanged tree executes nothing that is not forced
 		r = vBuildOf(top, nil)
 		for _, n := range names {
-			if !vSpec(n).always && !vDependsOnAlways(n) {
+			if !vSpec(n).always && !vDependsOnAlways(n) && !vKeepProject {
 				vAssert(!vRanBody(n), "C02: rebuilding an unchanged tree executed a target")
 			}
 		}
 	}
-	for i := 0; i < vParam("steps"); i++ {
-		if vChoose("step-kind", 2) == 0 {
+	vSteps()
+	vFail = map[string]bool{}
+	r := vBuildOf(top, nil)
+	vAssert(r.buildErr == nil, "a build without failing bodies fails")
+	vReach("history-done")
+}
+
+// vSteps: vParam("steps") steps, each an edit or a build (a free choice), or — when a plan is given —
+// exactly the plan's sequence of edits (E) and builds (B).
+func vSteps() {
+	plan := vPlans[vParam("plan")]
+	n := vParam("steps")
+	if plan != "" {
+		n = len(plan)
+	}
+	for i := 0; i < n; i++ {
+		edit := false
+		if plan != "" {
+			edit = plan[i] == 'E'
+		} else {
+			edit = vChoose("step-kind", 2) == 0
+		}
+		if edit {
 			vEdit()
 		} else {
 			vRunBuild("mid")
 		}
 	}
-	vFail = map[string]bool{}
-	r := vBuildOf(top, nil)
-	vAssert(r.buildErr == nil, "a build without failing bodies fails")
-	vReach("history-done")
 }
 
 func vDependsOnAlways(name string) bool {
@@ -531,13 +554,7 @@ func VHarnessDry() {
 	if vParam("first") == 1 {
 		vBuildOf(top, nil)
 	}
-	for i := 0; i < vParam("steps"); i++ {
-		if vChoose("step-kind", 2) == 0 {
-			vEdit()
-		} else {
-			vRunBuild("mid")
-		}
-	}
+	vSteps()
 	tn := names[len(names)-1-vChoose("build-target", len(names))]
 	always := vAllowAlways && vNondetBool("always")
 	vFail = map[string]bool{}
